@@ -177,13 +177,22 @@ Definition t_taxa (r : trow) : str := fst (fst r).
 Definition t_grp (r : trow) : option Z := snd (fst r).
 Definition t_val (r : trow) : list Q := snd r.
 
-Definition key : Type := (str * Z).
-(** group key; rows whose group is null are dropped by groupby (dropna) *)
-Definition key_of (use_grp : bool) (r : trow) : option key :=
-  if use_grp then match t_grp r with Some g => Some (t_taxa r, g) | None => None end else Some (t_taxa r, 0%Z).
-Definition key_eqb (a b : key) : bool := String.eqb (fst a) (fst b) && Z.eqb (snd a) (snd b).
+(** group key (taxon label, group label); since the fix (commit 187dc882) groupby runs with dropna=False: a null group
+    label is a key of its own, sorted after every integer label.  Without a group column the key is the label alone
+    (second component constant). *)
+Definition key : Type := (str * option Z).
+Definition key_of (use_grp : bool) (r : trow) : key :=
+  if use_grp then (t_taxa r, t_grp r) else (t_taxa r, Some 0%Z).
+Definition ogrp_leb (a b : option Z) : bool :=
+  match a, b with
+  | Some x, Some y => Z.leb x y
+  | Some _, None => true
+  | None, Some _ => false
+  | None, None => true
+  end.
+Definition key_eqb (a b : key) : bool := String.eqb (fst a) (fst b) && opt_eqb Z.eqb (snd a) (snd b).
 Definition key_leb (a b : key) : bool :=
-  if String.eqb (fst a) (fst b) then Z.leb (snd a) (snd b) else String.leb (fst a) (fst b).
+  if String.eqb (fst a) (fst b) then ogrp_leb (snd a) (snd b) else String.leb (fst a) (fst b).
 
 Fixpoint ins (k : key) (l : list key) : list key :=
   match l with
@@ -193,10 +202,9 @@ Fixpoint ins (k : key) (l : list key) : list key :=
 Fixpoint keys_of (use_grp : bool) (rows : list trow) : list key :=
   match rows with
   | [] => []
-  | r :: rest => match key_of use_grp r with Some k => ins k (keys_of use_grp rest) | None => keys_of use_grp rest end
+  | r :: rest => ins (key_of use_grp r) (keys_of use_grp rest)
   end.
-Definition has_key (use_grp : bool) (k : key) (r : trow) : bool :=
-  match key_of use_grp r with Some k' => key_eqb k k' | None => false end.
+Definition has_key (use_grp : bool) (k : key) (r : trow) : bool := key_eqb k (key_of use_grp r).
 Definition members (use_grp : bool) (k : key) (rows : list trow) : list trow := filter (has_key use_grp k) rows.
 Definition mean_rows (sel : list nat) (rs : list trow) : list Q :=
   map (fun j => sumQ (map (fun r => nth j (t_val r) 0) rs) / inject_Z (Z.of_nat (length rs))) sel.
@@ -221,6 +229,11 @@ Fixpoint resolve (tcols names : list str) : option (list nat) :=
   | c :: cs => match index_of c names, resolve cs names with Some j, Some js => Some (j :: js) | _, _ => None end
   end.
 
+(** without a genotype matrix the group labels are exported with to_numpy(dtype=int): a null label (NaN) is cast to
+    the smallest int64 (numpy on x86-64 emits a RuntimeWarning, no exception) *)
+Definition null_grp_code : Z := (-9223372036854775808)%Z.
+Definition grp_code (g : option Z) : Z := match g with Some z => z | None => null_grp_code end.
+
 (** genotype matrix argument: absent, or (taxa labels if any, taxa_grp if any) *)
 Definition gtarg : Type := option (option (list str) * option (list Z)).
 (** result: taxa, taxa_grp, trait, rows (None = the row is missing / NaN) *)
@@ -233,12 +246,19 @@ Definition estimate (use_grp has_grp_col : bool) (tcols names : list str) (rows 
     if use_grp && negb has_grp_col then None else
     let a := agg use_grp sel rows in
     match gt with
-    | None => Some (map (fun kv => fst (fst kv)) a, (if use_grp then Some (map (fun kv => snd (fst kv)) a) else None), tcols,
+    | None => Some (map (fun kv => fst (fst kv)) a, (if use_grp then Some (map (fun kv => grp_code (snd (fst kv))) a) else None), tcols,
                     map (fun kv => Some (snd kv)) a)
     | Some (None, _) => None                                 (* check_GenotypeMatrix_has_taxa *)
     | Some (Some gtx, gtg) => Some (gtx, gtg, tcols, join gtx a)
     end
   end.
+
+(** the behaviour BEFORE commit 187dc882 (groupby with the default dropna=True): records whose group label is null
+    were dropped before aggregation — kept only to state the refutation that documents the repaired defect *)
+Definition drop_null_groups (use_grp : bool) (rows : list trow) : list trow :=
+  if use_grp then filter (fun r => match t_grp r with Some _ => true | None => false end) rows else rows.
+Definition estimate_dropna (use_grp has_grp_col : bool) (tcols names : list str) (rows : list trow) (gt : gtarg) : option est_out :=
+  estimate use_grp has_grp_col tcols names (drop_null_groups use_grp rows) gt.
 
 (** ** comparison helpers for the correspondence shards (implementation values first, model values second) *)
 Fixpoint list_agree {A B} (f : A -> B -> bool) (l1 : list A) (l2 : list B) : bool :=
